@@ -333,6 +333,16 @@ def _run(ctx, rng, case, tag, dataflow):
     # a second, independent point (layout errors can cancel at one point)
     x2 = x * np.exp(0.05 * rng.normal(size=len(x)))
     check_value(ctx, case, x2, tag)
+    # one work vector, updated in place between evaluations (finite
+    # differences, line searches, samplers that reuse a proposal buffer):
+    # every evaluation is scored at the values the vector holds then
+    w = np.array(x, dtype=float)
+    if check_value(ctx, case, w, tag + '_buffer') is not None:
+        ctx.count('in_place_updates')
+        for k in rng.permutation(len(w))[:4]:
+            w[k] = w[k] * 1.03 + 0.002
+            if check_value(ctx, case, w, tag + '_buffer') is None:
+                break
     check_integer_vector(ctx, case, rng)
 
 
